@@ -114,22 +114,32 @@ def check_reader(rep, g, build):
         tag = int(tag_out[1]) if tag_out and tag_out[0] == 'cf' else None
         frames = ([0xAB000000] if m["field"] else []) + ([tag] if tagged else [])
         good = True
-        for d, t in enumerate(frames):
-            words = [(2 * d, io.MAGIC_HEADER), (2 * d + 1, t), (len(R) - 2 * d - 2, io.MAGIC_FOOTER), (len(R) - 2 * d - 1, (t + io.FOOTER_DELTA) & 0xFFFFFFFF)]
-            for pos, const in words:
-                if R[pos]["kind"] != "raw" or R[pos]["bytes"] != 4:
-                    rep.fail("C08.e", "%s word %d" % (inst, pos), file, "item %d of the reader is not a 4-byte header/footer word" % pos)
-                    good = False
-                    continue
-                k = R[pos]["call"].n
-                if not io.eq_literal(lits, k, const):
-                    rep.fail("C08.d", "%s word %d" % (inst, pos), ir.where(R[pos]["call"].inst), "the word read at item %d is not required to equal 0x%08X" % (pos, const))
-                    good = False
-                    continue
-                lit = next(l for l in lits if l[0] == 'cmp' and l[1] == 'eq' and ((l[2][0] == 'wr' and l[2][1] == k) or (l[3][0] == 'wr' and l[3][1] == k)))
-                if not any(ir.mk_not(lit) in tl for tl in throw_lits):
-                    rep.fail("C08.d", "%s word %d" % (inst, pos), ir.where(R[pos]["call"].inst), "a wrong word at item %d does not lead to a throw" % pos)
-                    good = False
+        Rc = g.Rc if hasattr(g, "Rc") else io.canon(R)
+        first, last = Rc[0], Rc[-1]
+        nfr = len(frames)
+        if first["kind"] != "raw" or last["kind"] != "raw" or first["bytes"] < 8 * nfr or last["bytes"] < 8 * nfr:
+            rep.fail("C08.e", inst, file, "reader does not begin and end with %d header/footer word pairs" % nfr)
+            good = False
+        else:
+            for d, t in enumerate(frames):
+                words = [(first, 8 * d, io.MAGIC_HEADER), (first, 8 * d + 4, t), (last, last["bytes"] - 8 * (d + 1), io.MAGIC_FOOTER),
+                         (last, last["bytes"] - 8 * (d + 1) + 4, (t + io.FOOTER_DELTA) & 0xFFFFFFFF)]
+                for run_, off, const in words:
+                    k, rel = io.run_read_at(run_, off)
+                    wi = "%s word@%d%s" % (inst, off if run_ is first and off < 8 * nfr else run_["bytes"] - off, "" if run_ is first and off < 8 * nfr else " from end")
+                    if k is None or rel != 0:
+                        rep.fail("C08.e", wi, file, "framing word is not read as one 4-byte word")
+                        good = False
+                        continue
+                    call = next(c for (o, sz, c) in run_["parts"] if c.n == k)
+                    if not io.eq_literal(lits, k, const):
+                        rep.fail("C08.d", wi, ir.where(call.inst), "the word read here is not required to equal 0x%08X" % const)
+                        good = False
+                        continue
+                    lit = next(l for l in lits if l[0] == 'cmp' and l[1] == 'eq' and ((l[2][0] == 'wr' and l[2][1] == k) or (l[3][0] == 'wr' and l[3][1] == k)))
+                    if not any(ir.mk_not(lit) in tl or ir.occurs_positive(tc, ir.mk_not(lit)) for tl, tc in zip(throw_lits, [c.cond for c in throws])):
+                        rep.fail("C08.d", wi, ir.where(call.inst), "a wrong word here does not lead to a throw")
+                        good = False
         if good:
             rep.ok("C08.d", inst)
             rep.ok("C08.e", inst)
@@ -145,6 +155,7 @@ def run(rep, tier):
                 # writer failed; reader facts are still needed
                 g.sr = ir.Sym(g.hr.func, epochs=True)
                 g.R = io.reader_items(g.sr)
+                g.Rc = io.canon(g.R)
                 g.outs = {k: ir.ungate(v) for k, v in g.sr.outputs(g.hr.out_index).items()}
                 g.ret_lits = [list(ir.common_lits(c)) for c, _ in g.sr.ret_cond]
             check_reader(rep, g, build)
